@@ -98,6 +98,7 @@ class Lane(LaneBase):
         tags = set()
         all_validated = True
         nontrivial = False
+        abuse = int(hashlib.sha1(repr(case['ops']).encode()).hexdigest(), 16) % 3 == 0
         for op in case['ops']:
             if op[0] in VALIDATE_POS and not op[VALIDATE_POS[op[0]]]:
                 all_validated = False
@@ -109,6 +110,14 @@ class Lane(LaneBase):
                 tags.add(op[0] + ':cyclic')
             if case.get('warm'):
                 histories.warm_caches(g)
+            if abuse:
+                # every export taken right after the call (cold caches unless warmed above) and changed by the caller --
+                # a two-cycle added to the networkx export, matrix entries flipped: exports are snapshots, is_dag() asks the graph
+                from harness import gen as _gen
+                try:
+                    tags.update(_gen.export_abuse(g))
+                except Exception:  # noqa: BLE001
+                    pass
             isdag, cyc = dag_truth(g)
             if cyc:
                 nontrivial = True
